@@ -9,7 +9,7 @@ package types
 //verif:bound varints: every value below 2^63 (and below 2^31 for the 31-bit form)
 //verif:bound transactions of 1 input (spend, issuance, veto, coinbase) x 1 output (original, vote): one field at a time ("focus", every field in turn) is wide -- an integer anywhere in 0..2^63-1, a byte string of 0..2 arbitrary bytes, a state-data / argument list of 0..2 items of 0..2 bytes -- while all other integers are arbitrary below 128 and all other byte strings / list items have the fixed length fill (0 = nil, or 1 arbitrary byte; fill 0 for issuance and veto inputs only in the thorough tier); hashes and asset ids arbitrary; this includes the three suffix fields of an input and the suffix of an output
 //verif:bound block headers with 0..2 sup links (signature slots: the focus slot 0..2 bytes, the others fill bytes), witness 0..2 bytes; blocks of 0..1 transactions (thorough: 2) (spend x original, narrow fields) in the three serialisation forms
-//verif:bound text form: MarshalText/UnmarshalText of a 1x1 transaction, a header with one sup link and (thorough) a block with one transaction, fields narrow (fill = 1), hashes and asset ids fixed constants
+//verif:bound text form: MarshalText/UnmarshalText of a 1x1 transaction, a header with one sup link and a block with one transaction, fields narrow (fill = 1), hashes and asset ids fixed constants; the block forms run with sync.Pool handing back the object Put last (pool=reuse), once directly and once with an unrelated longer block serialisation between decoding and comparing/re-encoding
 //verif:assume well-formed means: every integer field is below 2^63 (the writer rejects larger ones), asset version 1 and VM version 1 (the decoder rejects others), an issuance input carries the asset id computed from its own definition (as NewIssuanceInput does)
 //verif:assume SHA3-256 is an uninterpreted function without collisions (asset id of an issuance input, transaction ID)
 //verif:assume equality of values is modulo nil == empty for byte strings and lists (the decoders return nil for length 0)
@@ -21,7 +21,7 @@ package types
 //verif:obligation fn=VerifC04Block args=0,1;1,1;1,2;1,3 maps=lazy timeout=600000 secs=3600 validate=10
 //verif:obligation fn=VerifC04Block args=2,3 tier=thorough maps=lazy timeout=600000 secs=6000
 //verif:obligation fn=VerifC04Text args=0;1 maps=lazy idx=ite timeout=600000 secs=3600 validate=10
-//verif:obligation fn=VerifC04Text args=2 maps=lazy idx=ite pool=reuse timeout=600000 secs=3600
+//verif:obligation fn=VerifC04Text args=2;3 maps=lazy idx=ite pool=reuse timeout=600000 secs=3600
 
 import (
 	"bytes"
@@ -385,7 +385,8 @@ func VerifC04Block(nTx int, serflag int) {
 	verifReach("VerifC04Block:end")
 }
 
-// VerifC04Text: the hex text forms (what = 0 transaction, 1 block header, 2 block)
+// VerifC04Text: the hex text forms (what = 0 transaction, 1 block header, 2 block, 3 block with an
+// unrelated block serialisation between decoding and comparing/re-encoding)
 func VerifC04Text(what int) {
 	g := &verifC04Gen{focus: -1, fill: 1, fixedHashes: true}
 	switch what {
@@ -425,6 +426,21 @@ func VerifC04Text(what int) {
 		verifAssert(len(dec.Transactions) == 1, "block-transaction-count-equal")
 		verifC04CompareTx(&b.Transactions[0].TxData, &dec.Transactions[0].TxData)
 		verifAssert(dec.Transactions[0].ID == b.Transactions[0].ID, "block-transaction-id-preserved")
+		if what == 3 {
+			// an unrelated serialisation between decoding and using the decoded block: a constant block
+			// whose encoding is longer than the first one and differs from it everywhere (0xaa filler)
+			filler := make([]byte, 160)
+			for i := range filler {
+				filler[i] = 0xaa
+			}
+			other := &Block{BlockHeader: BlockHeader{Version: 0x2a2a2a2a2a2a, Height: 0x2a2a2a2a2a2a, Timestamp: 0x2a2a2a2a2a2a},
+				Transactions: []*Tx{NewTx(TxData{Version: 0x2a2a, Inputs: []*TxInput{NewCoinbaseInput(filler)}})}}
+			otherText, err := other.MarshalText()
+			verifAssert(err == nil && len(otherText) > len(text), "unrelated-block-text-written")
+			verifC04CompareHeaders(&b.BlockHeader, &dec.BlockHeader)
+			verifC04CompareTx(&b.Transactions[0].TxData, &dec.Transactions[0].TxData)
+			verifReach("VerifC04Text:after-unrelated-serialisation")
+		}
 		text2, err := dec.MarshalText()
 		verifAssert(err == nil && bytes.Equal(text, text2), "block-text-re-encodes-identically")
 	}
